@@ -272,8 +272,10 @@ def gen_cfg(rng, n, dry=None):
 def build_dag(nodes, cfg, root):
     from maestrowf.datastructures.core.executiongraph import ExecutionGraph
     from maestrowf.datastructures.core.study import StudyStep
+    # the dry-run switch is requested as any truthy value (the API does not demand the bool True)
+    dry = cfg["dry"] if (not cfg["dry"] or len(nodes) % 2 == 0) else 1
     dag = ExecutionGraph(submission_attempts=cfg["attempts"], submission_throttle=cfg["throttle"],
-                         use_tmp=False, dry_run=cfg["dry"])
+                         use_tmp=False, dry_run=dry)
     dag.add_description("study", "scripted")
     dag.add_node("_source", None)
     for i, nd in enumerate(nodes):
